@@ -9,6 +9,8 @@ A *cell* is the multiset of target values carried by one raw value of the featur
 from __future__ import annotations
 
 import itertools
+import math
+import os
 import traceback
 
 import numpy as np
@@ -167,8 +169,10 @@ def carver_kwargs(case, vals):
         dropna=cfg.get("dropna", True),
         output_dtype=cfg.get("output_dtype", "float"),
         copy=cfg.get("copy", True),
-        verbose=False,
+        verbose=bool(cfg.get("verbose", False)),
     )
+    if cfg.get("verbose"):
+        kw["pretty_print"] = False  # raw prints (captured by the driver), no IPython display
     if case["carver"] != "continuous":
         kw["sort_by"] = cfg.get("sort_by", "tschuprowt")
     kw.update(feature_kwargs(case["kind"], vals))
@@ -230,9 +234,33 @@ def build_frames(case):
     return X, y, Xd, yd, vals
 
 
+def reindex_frames(case, X, y, Xd, yd):
+    """optional non-default (unique, unordered) index on the train and dev samples"""
+    if case["cfg"].get("index") == "offset":
+        idx = [7 + 3 * ((5 * i) % len(X)) if math.gcd(5, len(X)) == 1 else 7 + 3 * (len(X) - i) for i in range(len(X))]
+        X = X.set_axis(idx, axis=0)
+        y = y.set_axis(idx, axis=0)
+        if Xd is not None:
+            idd = [1000 + 2 * (len(Xd) - i) for i in range(len(Xd))]
+            Xd = Xd.set_axis(idd, axis=0)
+            yd = yd.set_axis(idd, axis=0)
+    return X, y, Xd, yd
+
+
 def fit_carver(case):
     """runs the real carver. returns dict(status='ok'|'assert'|'internal', ...)"""
     X, y, Xd, yd, vals = build_frames(case)
+    X, y, Xd, yd = reindex_frames(case, X, y, Xd, yd)
+    import contextlib
+    import io
+
+    quiet = contextlib.redirect_stdout(io.StringIO()) if case["cfg"].get("verbose") else contextlib.nullcontext()
+    os.environ.setdefault("TQDM_DISABLE", "1")
+    with quiet, contextlib.redirect_stderr(io.StringIO()) if case["cfg"].get("verbose") else contextlib.nullcontext():
+        return _fit_carver(case, X, y, Xd, yd, vals)
+
+
+def _fit_carver(case, X, y, Xd, yd, vals):
     out = {"X": X, "y": y, "Xd": Xd, "yd": yd, "vals": vals}
     try:
         carver = carver_class(case["carver"])(**carver_kwargs(case, vals))
